@@ -2,7 +2,9 @@ package world
 
 import (
 	"context"
+	"errors"
 	"path"
+	"strings"
 	"sync"
 
 	"berty.tech/go-orbit-db/address"
@@ -63,6 +65,56 @@ type Disk struct {
 	stores    map[string]ds.Datastore
 	ks        ds.Datastore
 	Destroyed []string
+	// putFaults: pending write faults (see FailPuts)
+	putFaults []*putFault
+}
+
+type putFault struct {
+	match string
+	skip  int
+	left  int
+}
+
+// FailPutsAfter is FailPuts that lets the first skip matching Puts through.
+func (d *Disk) FailPutsAfter(match string, skip, n int) {
+	d.mu.Lock()
+	d.putFaults = append(d.putFaults, &putFault{match: match, skip: skip, left: n})
+	d.mu.Unlock()
+}
+
+// FailPuts makes the next n datastore Puts whose key contains match fail with an I/O error (nothing is
+// written, nothing is journaled): a transient storage fault.
+func (d *Disk) FailPuts(match string, n int) {
+	d.mu.Lock()
+	d.putFaults = append(d.putFaults, &putFault{match: match, left: n})
+	d.mu.Unlock()
+}
+
+// PendingPutFaults reports how many injected write faults have not fired yet.
+func (d *Disk) PendingPutFaults() int {
+	d.mu.Lock()
+	defer d.mu.Unlock()
+	n := 0
+	for _, f := range d.putFaults {
+		n += f.left
+	}
+	return n
+}
+
+func (d *Disk) putFails(key string) bool {
+	d.mu.Lock()
+	defer d.mu.Unlock()
+	for _, f := range d.putFaults {
+		if f.left > 0 && strings.Contains(key, f.match) {
+			if f.skip > 0 {
+				f.skip--
+				continue
+			}
+			f.left--
+			return true
+		}
+	}
+	return false
 }
 
 // NewDisk creates an empty disk journaling into j.
@@ -146,7 +198,7 @@ type diskCache struct {
 
 func (c *diskCache) Load(directory string, a address.Address) (ds.Datastore, error) {
 	p := CachePath(directory, a)
-	return &journaledDS{inner: c.d.Store(p), j: c.d.j, kind: "cache", store: p}, nil
+	return &journaledDS{inner: c.d.Store(p), j: c.d.j, kind: "cache", store: p, d: c.d}, nil
 }
 
 func (c *diskCache) Close() error { return nil }
@@ -166,6 +218,7 @@ type journaledDS struct {
 	j     *Journal
 	kind  string
 	store string
+	d     *Disk
 }
 
 func (w *journaledDS) Get(ctx context.Context, k ds.Key) ([]byte, error) { return w.inner.Get(ctx, k) }
@@ -177,6 +230,9 @@ func (w *journaledDS) Query(ctx context.Context, q query.Query) (query.Results, 
 	return w.inner.Query(ctx, q)
 }
 func (w *journaledDS) Put(ctx context.Context, k ds.Key, v []byte) error {
+	if w.d != nil && w.d.putFails(k.String()) {
+		return errors.New("simulated write failure (input/output error)")
+	}
 	if err := w.inner.Put(ctx, k, v); err != nil {
 		return err
 	}
